@@ -190,3 +190,37 @@ GEO_OUTPUTS = [
     'Total operating and maintenance costs',
     'Maximum Production Temperature',
 ]
+
+
+# the legacy HIP-RA program (hip_ra/HIP_RA.py): the third branch of work_package
+HIPOLD_BASE = """Reservoir Temperature, 250.0
+Rejection Temperature, 60.0
+Formation Porosity, 10.0
+Reservoir Area, 55.0
+Reservoir Thickness, 0.25
+Reservoir Life Cycle, 25
+Heat Capacity Of Water, -1
+Density Of Water, -1
+"""
+
+HIPOLD_BASE_2 = """Reservoir Temperature, 180.0
+Rejection Temperature, 30.0
+Formation Porosity, 18.0
+Reservoir Area, 81.0
+Reservoir Thickness, 0.286
+Reservoir Life Cycle, 30
+Heat Capacity Of Water, -1
+Density Of Water, -1
+"""
+
+HIPOLD_INPUTS = {
+    'Reservoir Temperature': HIP_INPUTS['Reservoir Temperature'],
+    'Rejection Temperature': HIP_INPUTS['Rejection Temperature'],
+    'Formation Porosity': HIP_INPUTS['Reservoir Porosity'],
+    'Reservoir Area': HIP_INPUTS['Reservoir Area'],
+    'Reservoir Thickness': HIP_INPUTS['Reservoir Thickness'],
+    'Reservoir Life Cycle': HIP_INPUTS['Reservoir Life Cycle'],
+}
+
+HIPOLD_OUTPUTS = ['Producible Heat', 'Producible Electricity', 'Stored Heat', 'Available Heat', 'Wellhead Heat',
+                  'Recovery Factor', 'Fluid Produced', 'Enthalpy', 'Reservoir Volume']
